@@ -482,7 +482,7 @@ Error RACFGBuilder::on_instruction(InstNode* inst, InstControlFlow& cf, RAInstBu
       if (single_reg_ops == operands.size()) {
         same_reg_hint = inst_info.same_reg_hint();
       }
-      else if (operands.size() == 2 && operands[1].is_imm()) {
+      else if (operands.size() == 2 && operands[0].is_reg() && operands[1].is_imm()) {
         // Handle some tricks used by X86 asm.
         const Reg& reg = operands[0].as<Reg>();
         const Imm& imm = operands[1].as<Imm>();
